@@ -128,6 +128,13 @@ class RunningTask:
             Result from the worker process
         """
         try:
+            # A process forked by the worker inherits the sending end of the pipe (and of
+            # the worker's sentinel): when the worker dies while such a process lives on,
+            # the pipe never reports EOF and recv() alone would block. So also watch
+            # whether the worker is still alive.
+            while not self._receiving_connection.poll(1.0):
+                if not self._worker_process.is_alive() and not self._receiving_connection.poll():
+                    raise EOFError("The worker process died without sending a result.")
             result = self._receiving_connection.recv()
             self._receiving_connection.close()
             _LOGGER.info(
